@@ -132,7 +132,11 @@ Example spec_outage_nonvacuous :
                       mkSnap 3 false [SOk; SErr EFetch; SOk; SErr EFetch; SOk] [xkA] true] /\
   (* the hook shows the emptied cache *)
   spec sc (OScript [mkSnap 0 false [] [] true; mkSnap 1 false [SPending] [] true; mkSnap 1 true [SOk] [xkA] true;
-                    mkSnap 2 false [SOk; SPending] [xkA] true; mkSnap 2 true [SOk; SErr ENoKey] [] true]) = false /\
+                    mkSnap 2 false [SOk; SPending] [xkA] true; mkSnap 2 true [SOk; SErr ENoKey] [] true;
+                    mkSnap 3 false [SOk; SErr ENoKey; SPending] [] true;
+                    mkSnap 3 false [SOk; SErr ENoKey; SPending; SPending] [] true;
+                    mkSnap 3 true [SOk; SErr ENoKey; SErr EFetch; SErr EFetch] [] true;
+                    mkSnap 4 false [SOk; SErr ENoKey; SErr EFetch; SErr EFetch; SPending] [] true]) = false /\
   (* without looking at the cache: the cached key's token has to wait for a download *)
   spec sc (OScript [mkSnap 0 false [] [] true; mkSnap 1 false [SPending] [] true; mkSnap 1 true [SOk] [xkA] true;
                     mkSnap 2 false [SOk; SPending] [xkA] true; mkSnap 2 true [SOk; SErr ENoKey] [xkA] true;
@@ -169,4 +173,18 @@ Example spec_cache_entry_rewritten_nonvacuous :
   spec sc (model sc) = true /\
   spec sc (OScript [mkSnap 0 false [] [] true; mkSnap 1 false [SPending] [] true; mkSnap 1 true [SOk] [xkA] true;
                     mkSnap 1 false [SOk; SOk] [mkJwk "A" KEc "sig" 1] true]) = false.
+Proof. vm_compute. auto. Qed.
+
+(* two key sets for one jwks_uri string behind different http clients: the neighbour's download
+   (key B only) is not this key set's; inheriting the neighbour's cache - B's token accepted, the
+   own endpoint's key A refused - is rejected *)
+Example spec_neighbour_nonvacuous :
+  let sc := Script false [MNeighbour [xkB]; MRotate [xkA]; MArrive xtB; MArrive xtA; MRelease xgood1] in
+  spec sc (model sc) = true /\
+  model sc = OScript [mkSnap 0 false [] [] true; mkSnap 0 false [] [] true; mkSnap 1 false [SPending] [] true;
+                      mkSnap 1 false [SPending; SPending] [] true; mkSnap 1 true [SErr ENoKey; SOk] [xkA] true] /\
+  spec sc (OScript [mkSnap 0 false [] [xkB] true; mkSnap 0 false [] [xkB] true; mkSnap 0 false [SOk] [xkB] true;
+                    mkSnap 1 false [SOk; SPending] [xkB] true; mkSnap 1 true [SOk; SOk] [xkA] true]) = false /\
+  spec sc (OScript [mkSnap 0 false [] [] true; mkSnap 0 false [] [] true; mkSnap 0 false [SOk] [] true;
+                    mkSnap 1 false [SOk; SPending] [] true; mkSnap 1 true [SOk; SOk] [xkA] true]) = false.
 Proof. vm_compute. auto. Qed.
